@@ -23,6 +23,7 @@ type DevCfg struct {
 }
 
 type ClientCfg struct {
+	Debug     bool   // client built with debug = true (the library then prints every message to stdout)
 	Bind      string // "" = zero value
 	Broadcast string // "" = zero value (unset)
 	Listen    string
@@ -55,7 +56,7 @@ func mkClient(cfg ClientCfg) uhppote.IUHPPOTE {
 		types.BindAddr{AddrPort: addrPort(cfg.Bind)},
 		types.BroadcastAddr{AddrPort: addrPort(cfg.Broadcast)},
 		types.ListenAddr{AddrPort: addrPort(cfg.Listen)},
-		cfg.Timeout, mkDevices(cfg), false)
+		cfg.Timeout, mkDevices(cfg), cfg.Debug)
 }
 
 // mkMemClient builds a client with the public constructor and replaces its transport by an in-memory driver.
